@@ -94,8 +94,23 @@ impl BackendCfg {
     }
 }
 
-/// Apply a (non-restart) model operation to a backend.
+/// Apply a (non-restart) model operation to a backend. A panic inside the engine is reported as
+/// an error string starting with "engine panicked" (a verdict for the caller's oracle, with a
+/// replay file), not left to take the checking process down.
 pub fn apply_backend(b: &HnswBackend, op: &Op) -> Result<Ret, String> {
+    if matches!(op, Op::Restart) {
+        panic!("restart is handled by the caller");
+    }
+    match std::panic::catch_unwind(std::panic::AssertUnwindSafe(|| apply_backend_inner(b, op))) {
+        Ok(r) => r,
+        Err(p) => {
+            let msg = p.downcast_ref::<String>().cloned().or_else(|| p.downcast_ref::<&str>().map(|s| s.to_string())).unwrap_or_else(|| "?".into());
+            Err(format!("engine panicked: {msg}"))
+        }
+    }
+}
+
+fn apply_backend_inner(b: &HnswBackend, op: &Op) -> Result<Ret, String> {
     match op {
         Op::Ins { id, v, m } => b.insert(*id, v.clone(), to_hash(m)).map(|_| Ret::Unit).map_err(|e| format!("{e:#}")),
         Op::Del { id } => b.delete(*id).map(Ret::Bool).map_err(|e| format!("{e:#}")),
